@@ -1,345 +1,14 @@
 # C06 / C04 / C01: MetaStoreUpdate::takeover_master (src/broker/update.rs) against the complete functional
-# description takeover_post (DESIGN 4.6).  Ported from the calibrated probe (design_probes/w3_build.py, w3_post.py).
+# description takeover_post (verus/takeover_spec.rs, DESIGN 4.6).
+# Text = real function + rules R1, D10 + line-anchored overlay contracts/takeover_master.overlay.json
+# (contract, 8 loop specs, ghost snapshots, proof hints; derived from the calibrated probes w3_build/w3_post).
 import re
 import vlib
 from vlib import Undecided
 from units import broker_common
+import overlay as _overlay
 
-def parts(U):
-    S = U.src('src/broker/update.rs')
-    fobj = S.fn('takeover_master')
-    fobj.r1_logging()
-    f = fobj.text
-    cnt = 0; cnt2 = 0; cnt3 = 0
-    def need(c, what):
-        if not c:
-            raise Undecided('takeover_master: anchor lost: ' + what)
-    # ---- D10: return inside outer for -> flag + break (two sites), declared before first loop ----
-    f=f.replace("        for chunk in cluster.chunks.iter_mut() {\n            if chunk.proxy_addresses[0]","        let mut verif_ret: Option<Result<(), MetaStoreError>> = None;\n        for chunk in cluster.chunks.iter_mut() {\n            if chunk.proxy_addresses[0]",1)
-    need(f.count("                    return Ok(());")==2, 'two early returns')
-    f=f.replace("                    return Ok(());","                    { verif_ret = Some(Ok(())); break; }")
-    f=f.replace("            }\n        }\n\n        for chunk in cluster.chunks.iter_mut() {\n            for migrating_slots","            }\n        }\n        if let Some(verif_r) = verif_ret { return verif_r; }\n\n        for chunk in cluster.chunks.iter_mut() {\n            for migrating_slots",1)
-
-    # ---- loop annotations by ordinal ----
-    loops=[m.start() for m in re.finditer(r'\n( +)for [^\n]*\{(?=\n)', f)]
-    need(len(loops)==8, 'expected 8 for loops, found %d' % len(loops))
-    def annotate(f, ordinal, itname, inv):
-        ms=list(re.finditer(r'\n( +)for ([^\n]*?) in ([^\n]*) \{(?=\n)', f))
-        m=ms[ordinal]
-        ind=m.group(1)
-        new="\n%sfor %s in %s: %s\n%s\n%s{"%(ind,m.group(2),itname,m.group(3),inv,ind)
-        return f[:m.start()]+new+f[m.end():]
-
-    KM="vstd::std_specs::hash::obeys_key_model::<(usize, usize)>()"
-    OC="old_cluster"   # ghost copy of *cluster before loops
-    def inner_stamp_inv(p):
-        return f'''                    invariant
-                        {KM},
-                        0 <= it.index@ < {OC}.chunks@.len(),
-                        it2.seq().len() == {OC}.chunks@[it.index@].migrating_slots[{p}]@.len(),
-                        forall|i: int| 0 <= i < it2.seq().len() ==> *(#[trigger] it2.seq()[i]) == {OC}.chunks@[it.index@].migrating_slots[{p}]@[i],
-                        forall|i: int| 0 <= i < it2.index@ ==> entry_post({OC}.chunks@[it.index@].migrating_slots[{p}]@[i], *final(#[trigger] it2.seq()[i]), true, new_epoch),
-                        peer_position@ == positions_of({OC}.chunks@[it.index@].migrating_slots[{p}]@.subrange(0, it2.index@)),'''
-    def inner_stamp_inv2(p, first):
-        # second stamping loop (other half p), after the own half `first` was fully stamped
-        return f'''                        invariant
-                            {KM},
-                            0 <= it.index@ < {OC}.chunks@.len(),
-                            it2.seq().len() == {OC}.chunks@[it.index@].migrating_slots[{p}]@.len(),
-                            forall|i: int| 0 <= i < it2.seq().len() ==> *(#[trigger] it2.seq()[i]) == {OC}.chunks@[it.index@].migrating_slots[{p}]@[i],
-                            forall|i: int| 0 <= i < it2.index@ ==> entry_post({OC}.chunks@[it.index@].migrating_slots[{p}]@[i], *final(#[trigger] it2.seq()[i]), true, new_epoch),
-                            peer_position@ == positions_of({OC}.chunks@[it.index@].migrating_slots[{first}]@ + {OC}.chunks@[it.index@].migrating_slots[{p}]@.subrange(0, it2.index@)),'''
-    # annotate from last to first so that ordinals stay valid
-    f=annotate(f,7,'it3',f'''                    invariant
-                        {KM},
-                        0 <= it.index@ < mid.chunks@.len(), 0 <= it2.index@ < 2,
-                        it3.seq().len() == mid.chunks@[it.index@].migrating_slots[it2.index@]@.len(),
-                        forall|i: int| 0 <= i < it3.seq().len() ==> *(#[trigger] it3.seq()[i]) == mid.chunks@[it.index@].migrating_slots[it2.index@]@[i],
-                        forall|i: int| 0 <= i < it3.index@ ==> entry_post(mid.chunks@[it.index@].migrating_slots[it2.index@]@[i], *final(#[trigger] it3.seq()[i]), touches(mid.chunks@[it.index@].migrating_slots[it2.index@]@[i].meta, peer_position@), new_epoch),''')
-    f=annotate(f,6,'it2',f'''                invariant
-                    {KM},
-                    0 <= it.index@ < mid.chunks@.len(),
-                    it2.seq().len() == 2,
-                    forall|i: int| 0 <= i < 2 ==> (*(#[trigger] it2.seq()[i]))@ == mid.chunks@[it.index@].migrating_slots[i]@,
-                    forall|i: int| 0 <= i < it2.index@ ==> entries_post(mid.chunks@[it.index@].migrating_slots[i]@, (*final(#[trigger] it2.seq()[i]))@, peer_position@, false, new_epoch),''')
-    f=annotate(f,5,'it',f'''            invariant
-                {KM},
-                it.seq().len() == mid.chunks@.len(),
-                forall|i: int| 0 <= i < it.seq().len() ==> *(#[trigger] it.seq()[i]) == mid.chunks@[i],
-                forall|i: int| 0 <= i < it.index@ ==> chunk_post2(mid.chunks@[i], *final(#[trigger] it.seq()[i]), peer_position@, new_epoch),''')
-    f=annotate(f,4,'it2',inner_stamp_inv2(0,1))
-    f=annotate(f,3,'it2',inner_stamp_inv(1))
-    f=annotate(f,2,'it2',inner_stamp_inv2(1,0))
-    f=annotate(f,1,'it2',inner_stamp_inv(0))
-    f=annotate(f,0,'it',f'''            invariant_except_break
-                verif_ret is None,
-                peer_position@ == Set::<(usize, usize)>::empty(),
-                forall|i: int| 0 <= i < it.index@ ==> !is_hit({OC}.chunks@[i], failed_proxy_address@),
-            invariant
-                {KM},
-                verif_ret is Some ==> verif_ret == Some(Ok::<(), MetaStoreError>(())),
-                it.seq().len() == {OC}.chunks@.len(),
-                forall|i: int| 0 <= i < it.seq().len() ==> *(#[trigger] it.seq()[i]) == {OC}.chunks@[i],
-                forall|i: int| 0 <= i < it.index@ - 1 ==> !is_hit({OC}.chunks@[i], failed_proxy_address@),
-                forall|i: int| 0 <= i < it.index@ && !is_hit({OC}.chunks@[i], failed_proxy_address@) ==> *final(#[trigger] it.seq()[i]) == {OC}.chunks@[i],
-                forall|i: int| 0 <= i < it.index@ && is_hit({OC}.chunks@[i], failed_proxy_address@) ==> hit_post({OC}.chunks@[i], *final(#[trigger] it.seq()[i]), failed_proxy_address@, new_epoch, verif_ret is Some, peer_position@),
-            ensures
-                it.index@ == it.seq().len() || (it.index@ >= 1 && is_hit({OC}.chunks@[it.index@ - 1], failed_proxy_address@)),
-                verif_ret is None && !(it.index@ >= 1 && is_hit({OC}.chunks@[it.index@ - 1], failed_proxy_address@)) ==> peer_position@ == Set::<(usize, usize)>::empty(),''')
-
-    # proof hints (anchored on source text)
-    for p in ['0','1']:
-        pass
-    hint_tpl='''                    proof {
-                        let sq = old_cluster.chunks@[it.index@].migrating_slots[PART]@;
-                        assert(sq.subrange(0, it2.index@ + 1).drop_last() =~= sq.subrange(0, it2.index@));
-                        assert(sq.subrange(0, it2.index@ + 1).last() == sq[it2.index@]);
-                    }
-'''
-    hint2_tpl='''                    proof {
-                        let s1 = old_cluster.chunks@[it.index@].migrating_slots[FIRST]@;
-                        let sq = old_cluster.chunks@[it.index@].migrating_slots[PART]@;
-                        assert((s1 + sq.subrange(0, it2.index@ + 1)).drop_last() =~= s1 + sq.subrange(0, it2.index@));
-                        assert((s1 + sq.subrange(0, it2.index@ + 1)).last() == sq[it2.index@]);
-                    }
-'''
-    hints=[hint_tpl.replace('PART','0'), hint2_tpl.replace('PART','1').replace('FIRST','0'), hint_tpl.replace('PART','1'), hint2_tpl.replace('PART','0').replace('FIRST','1')]
-    def repl2(m):
-        nonlocal cnt2
-        h=hints[cnt2]; cnt2+=1
-        return m.group(0)+h
-    f=re.sub(r' +migrating_slot_range\.meta\.dst_chunk_part,\n +\)\);\n', repl2, f)
-    need(cnt2==4, 'four stamping loop bodies')
-    # hint after each inner stamping loop (before the plain `break;`)
-    def repl(m):
-        nonlocal cnt
-        p=str(cnt); cnt+=1
-        return m.group(1)+'''                proof {
-                    let sq = old_cluster.chunks@[it.index@].migrating_slots[%s]@;
-                    assert(sq.subrange(0, sq.len() as int) =~= sq);
-                }
-'''%p+m.group(2)
-    f=re.sub(r'(                \}\n)(                break;\n)', repl, f)
-    need(cnt==2, 'two plain breaks')
-    f=f.replace("        let cluster = self\n","        proof { axiom_key_of_same::<ClusterName>(cluster_name); }\n        let ghost old_map = self.store.clusters@;\n        let cluster = self\n",1)
-    # ghost snapshots
-    f=f.replace("        let mut peer_position = HashSet::new();\n","        let mut peer_position = HashSet::new();\n        let ghost old_cluster = *cluster;\n        broadcast use axiom_iter_mut_has_resolved;\n",1)
-    f=f.replace("        if let Some(verif_r) = verif_ret { return verif_r; }\n","        if let Some(verif_r) = verif_ret { return verif_r; }\n        let ghost mid = *cluster;\n",1)
-
-    specs='''
-// ---- specs ----
-pub open spec fn is_hit(c: ChunkStore, failed: Seq<char>) -> bool { c.proxy_addresses[0]@ == failed || c.proxy_addresses[1]@ == failed }
-pub open spec fn hit_half(c: ChunkStore, failed: Seq<char>) -> int { if c.proxy_addresses[0]@ == failed { 0 } else { 1 } }
-pub open spec fn flipped(h: int) -> ChunkRolePosition { if h == 0 { ChunkRolePosition::SecondChunkMaster } else { ChunkRolePosition::FirstChunkMaster } }
-pub open spec fn touches(m: MigrationMetaStore, p: Set<(usize, usize)>) -> bool { p.contains((m.src_chunk_index, m.src_chunk_part)) || p.contains((m.dst_chunk_index, m.dst_chunk_part)) }
-pub open spec fn positions_of(a: Seq<MigrationSlotRangeStore>) -> Set<(usize, usize)>
-    decreases a.len()
-{
-    if a.len() == 0 { Set::<(usize, usize)>::empty() }
-    else { positions_of(a.drop_last()).insert((a.last().meta.src_chunk_index, a.last().meta.src_chunk_part)).insert((a.last().meta.dst_chunk_index, a.last().meta.dst_chunk_part)) }
-}
-// entry b is entry a with epoch := e if stamped, unchanged otherwise
-pub open spec fn entry_post(a: MigrationSlotRangeStore, b: MigrationSlotRangeStore, stamped: bool, e: u64) -> bool {
-    b.range_list == a.range_list && b.is_migrating == a.is_migrating
-    && b.meta.src_chunk_index == a.meta.src_chunk_index && b.meta.src_chunk_part == a.meta.src_chunk_part
-    && b.meta.dst_chunk_index == a.meta.dst_chunk_index && b.meta.dst_chunk_part == a.meta.dst_chunk_part
-    && b.meta.epoch == (if stamped { e } else { a.meta.epoch })
-}
-pub open spec fn entries_post(a: Seq<MigrationSlotRangeStore>, b: Seq<MigrationSlotRangeStore>, p: Set<(usize, usize)>, all: bool, e: u64) -> bool {
-    a.len() == b.len() && forall|i: int| 0 <= i < a.len() ==> entry_post(#[trigger] a[i], b[i], all || touches(a[i].meta, p), e)
-}
-pub open spec fn chunk_static_eq(a: ChunkStore, b: ChunkStore) -> bool {
-    a.stable_slots == b.stable_slots && a.proxy_addresses == b.proxy_addresses && a.hosts == b.hosts && a.node_addresses == b.node_addresses
-}
-// first phase, on the hit chunk
-pub open spec fn hit_post(a: ChunkStore, b: ChunkStore, failed: Seq<char>, e: u64, early: bool, peers: Set<(usize, usize)>) -> bool {
-    let h = hit_half(a, failed);
-    if a.role_position == flipped(h) { early && b == a && peers == Set::<(usize, usize)>::empty() }
-    else {
-        !early && chunk_static_eq(a, b) && b.role_position == flipped(h)
-        && b.migrating_slots[1 - h]@ == a.migrating_slots[1 - h]@
-        && entries_post(a.migrating_slots[h]@, b.migrating_slots[h]@, Set::<(usize, usize)>::empty(), true, e)
-        && peers == positions_of(a.migrating_slots[h]@)
-    }
-}
-// second phase
-pub open spec fn chunk_post2(a: ChunkStore, b: ChunkStore, p: Set<(usize, usize)>, e: u64) -> bool {
-    chunk_static_eq(a, b) && a.role_position == b.role_position
-    && entries_post(a.migrating_slots[0]@, b.migrating_slots[0]@, p, false, e)
-    && entries_post(a.migrating_slots[1]@, b.migrating_slots[1]@, p, false, e)
-}
-
-pub open spec fn is_first_hit(oc: ClusterStore, j: int, failed: Seq<char>) -> bool {
-    0 <= j < oc.chunks@.len() && is_hit(oc.chunks@[j], failed) && forall|i: int| 0 <= i < j ==> !is_hit(#[trigger] oc.chunks@[i], failed)
-}
-pub open spec fn chunk_final(a: ChunkStore, b: ChunkStore, is_j: bool, h: int, p: Set<(usize, usize)>, e: u64) -> bool {
-    chunk_static_eq(a, b) && b.role_position == (if is_j { flipped(h) } else { a.role_position })
-    && entries_post(a.migrating_slots[0]@, b.migrating_slots[0]@, p, is_j && h == 0, e)
-    && entries_post(a.migrating_slots[1]@, b.migrating_slots[1]@, p, is_j && h == 1, e)
-}
-pub open spec fn takeover_post(oc: ClusterStore, nc: ClusterStore, failed: Seq<char>, e: u64) -> bool {
-    &&& nc.chunks@.len() == oc.chunks@.len() && nc.name == oc.name && nc.config == oc.config
-    &&& forall|j: int| #![trigger oc.chunks@[j]] is_first_hit(oc, j, failed) && oc.chunks@[j].role_position == flipped(hit_half(oc.chunks@[j], failed)) ==> nc == oc
-    &&& forall|j: int| #![trigger oc.chunks@[j]] is_first_hit(oc, j, failed) && oc.chunks@[j].role_position != flipped(hit_half(oc.chunks@[j], failed)) ==> {
-            let h = hit_half(oc.chunks@[j], failed);
-            nc.epoch == e && forall|c: int| 0 <= c < oc.chunks@.len() ==> chunk_final(#[trigger] oc.chunks@[c], nc.chunks@[c], c == j, h, positions_of(oc.chunks@[j].migrating_slots[h]@), e)
-        }
-    &&& (forall|i: int| 0 <= i < oc.chunks@.len() ==> !is_hit(#[trigger] oc.chunks@[i], failed)) ==>
-            nc.epoch == e && forall|c: int| 0 <= c < oc.chunks@.len() ==> chunk_final(#[trigger] oc.chunks@[c], nc.chunks@[c], false, 0, Set::<(usize, usize)>::empty(), e)
-}
-
-impl MetaStore {
-//@@BUMP@@
-}
-//@@SPECS_END@@
-//@@CONTRACT_BEGIN@@
-'''
-    contract='''    fn takeover_master(
-        &mut self,
-        cluster_name: &ClusterName,
-        failed_proxy_address: String,
-    ) -> (r: Result<(), MetaStoreError>)
-        requires old(self).store.global_epoch < u64::MAX,
-            vstd::std_specs::hash::obeys_key_model::<(usize, usize)>(),
-            vstd::std_specs::hash::obeys_key_model::<ClusterName>(),
-        ensures
-            final(self).store.global_epoch == old(self).store.global_epoch + 1,
-            final(self).store.failed_proxies == old(self).store.failed_proxies, final(self).store.failures == old(self).store.failures,
-            final(self).store.all_proxies == old(self).store.all_proxies, final(self).store.enable_ordered_proxy == old(self).store.enable_ordered_proxy,
-            final(self).store.version == old(self).store.version,
-            r is Err ==> final(self).store.clusters@ == old(self).store.clusters@ && !old(self).store.clusters@.contains_key(*cluster_name),
-            r is Ok ==> old(self).store.clusters@.contains_key(*cluster_name)
-                && final(self).store.clusters@ == old(self).store.clusters@.insert(*cluster_name, final(self).store.clusters@[*cluster_name])
-                && takeover_post(old(self).store.clusters@[*cluster_name], final(self).store.clusters@[*cluster_name], failed_proxy_address@, final(self).store.global_epoch),
-'''
-    body = f[f.index(') -> Result<(), MetaStoreError> {') + len(') -> Result<(), MetaStoreError> '):]
-    s = specs + contract + "//@@CONTRACT_END@@\n" + body + "\n}\n"
-    def must(old, new, count=1):
-        nonlocal s
-        need(s.count(old) >= 1, old[:60])
-        s = s.replace(old, new, count)
-    # 1. early case spec
-    must("==> nc == oc\n","==> nc.epoch == oc.epoch && nc.chunks@ =~= oc.chunks@\n")
-    # 2. ghost hit index
-    must("        let ghost old_cluster = *cluster;\n","        let ghost old_cluster = *cluster;\n        let ghost mut hit_idx: int = -1;\n")
-    s=s.replace("{ verif_ret = Some(Ok(())); break; }","{ proof { hit_idx = it.index@; } verif_ret = Some(Ok(())); break; }")
-    s=re.sub(r'(                \}\n)(                break;\n)', lambda m: m.group(1)+"                proof { hit_idx = it.index@; }\n"+m.group(2), s)
-    must("            invariant_except_break\n                verif_ret is None,","            invariant_except_break\n                hit_idx == -1,\n                verif_ret is None,")
-    must("            ensures\n                it.index@ == it.seq().len() ||","""            ensures
-                    hit_idx == -1 ==> it.index@ == it.seq().len() && verif_ret is None,
-                    hit_idx == -1 ==> forall|i: int| 0 <= i < it.seq().len() ==> !is_hit(#[trigger] old_cluster.chunks@[i], failed_proxy_address@),
-                    hit_idx != -1 ==> hit_idx == it.index@ - 1 && 0 <= hit_idx < it.seq().len() && is_hit(old_cluster.chunks@[hit_idx], failed_proxy_address@),
-                    it.index@ == it.seq().len() ||""")
-    # 3. after loop 1
-    must("        if let Some(verif_r) = verif_ret { return verif_r; }\n        let ghost mid = *cluster;\n","""        let ghost mid = *cluster;
-            proof {
-                let oc = old_cluster; let fa = failed_proxy_address@;
-                assert(mid.chunks@.len() == oc.chunks@.len());
-                assert(mid.epoch == oc.epoch && mid.name == oc.name && mid.config == oc.config);
-                if hit_idx == -1 {
-                    assert forall|c: int| 0 <= c < oc.chunks@.len() implies !is_hit(#[trigger] oc.chunks@[c], fa) && mid.chunks@[c] == oc.chunks@[c] by {}
-                } else {
-                    assert(is_first_hit(oc, hit_idx, fa));
-                    assert(hit_post(oc.chunks@[hit_idx], mid.chunks@[hit_idx], fa, new_epoch, verif_ret is Some, peer_position@));
-                    assert forall|c: int| 0 <= c < oc.chunks@.len() && c != hit_idx implies mid.chunks@[c] == #[trigger] oc.chunks@[c] by {}
-                }
-            }
-            if let Some(verif_r) = verif_ret {
-                proof {
-                    assert(cluster.chunks@ =~= old_cluster.chunks@);
-                    assert forall|j: int| is_first_hit(old_cluster, j, failed_proxy_address@) implies j == hit_idx by {}
-                }
-                return verif_r;
-            }
-    """)
-    # 4. end
-    must("        cluster.epoch = new_epoch;\n        Ok(())\n","""        cluster.epoch = new_epoch;
-            proof {
-                let oc = old_cluster; let nc = *cluster; let fa = failed_proxy_address@; let pp = peer_position@;
-                assert(nc.chunks@.len() == oc.chunks@.len());
-                assert forall|c: int| 0 <= c < oc.chunks@.len() implies chunk_post2(mid.chunks@[c], #[trigger] nc.chunks@[c], pp, new_epoch) by {}
-                if hit_idx == -1 {
-                    assert(pp == Set::<(usize, usize)>::empty());
-                    assert forall|c: int| 0 <= c < oc.chunks@.len() implies chunk_final(#[trigger] oc.chunks@[c], nc.chunks@[c], false, 0, Set::<(usize, usize)>::empty(), new_epoch) by {
-                        assert(mid.chunks@[c] == oc.chunks@[c]);
-                        assert(chunk_post2(mid.chunks@[c], nc.chunks@[c], pp, new_epoch));
-                    }
-                } else {
-                    let j = hit_idx; let h = hit_half(oc.chunks@[j], fa);
-                    assert forall|jj: int| is_first_hit(oc, jj, fa) implies jj == j by {}
-                    assert(oc.chunks@[j].role_position != flipped(h));
-                    assert(pp == positions_of(oc.chunks@[j].migrating_slots[h]@));
-                    assert forall|c: int| 0 <= c < oc.chunks@.len() implies chunk_final(#[trigger] oc.chunks@[c], nc.chunks@[c], c == j, h, pp, new_epoch) by {
-                        assert(chunk_post2(mid.chunks@[c], nc.chunks@[c], pp, new_epoch));
-                        if c != j { assert(mid.chunks@[c] == oc.chunks@[c]); }
-                    }
-                }
-            }
-            Ok(())
-    """)
-
-    must('''pub open spec fn hit_post(a: ChunkStore, b: ChunkStore, failed: Seq<char>, e: u64, early: bool, peers: Set<(usize, usize)>) -> bool {
-    let h = hit_half(a, failed);
-    if a.role_position == flipped(h) { early && b == a && peers == Set::<(usize, usize)>::empty() }
-    else {
-        !early && chunk_static_eq(a, b) && b.role_position == flipped(h)
-        && b.migrating_slots[1 - h]@ == a.migrating_slots[1 - h]@
-        && entries_post(a.migrating_slots[h]@, b.migrating_slots[h]@, Set::<(usize, usize)>::empty(), true, e)
-        && peers == positions_of(a.migrating_slots[h]@)
-    }
-}''','''pub open spec fn both_moved(a: ChunkStore, h: int) -> bool { a.role_position == flipped(1 - h) }
-pub open spec fn hit_peers(a: ChunkStore, h: int) -> Set<(usize, usize)> {
-    if both_moved(a, h) { positions_of(a.migrating_slots[h]@ + a.migrating_slots[1 - h]@) } else { positions_of(a.migrating_slots[h]@) }
-}
-pub open spec fn hit_post(a: ChunkStore, b: ChunkStore, failed: Seq<char>, e: u64, early: bool, peers: Set<(usize, usize)>) -> bool {
-    let h = hit_half(a, failed);
-    if a.role_position == flipped(h) { early && b == a && peers == Set::<(usize, usize)>::empty() }
-    else {
-        !early && chunk_static_eq(a, b) && b.role_position == flipped(h)
-        && entries_post(a.migrating_slots[1 - h]@, b.migrating_slots[1 - h]@, Set::<(usize, usize)>::empty(), both_moved(a, h), e)
-        && entries_post(a.migrating_slots[h]@, b.migrating_slots[h]@, Set::<(usize, usize)>::empty(), true, e)
-        && peers == hit_peers(a, h)
-    }
-}''')
-    must('''    && entries_post(a.migrating_slots[0]@, b.migrating_slots[0]@, p, is_j && h == 0, e)
-    && entries_post(a.migrating_slots[1]@, b.migrating_slots[1]@, p, is_j && h == 1, e)''','''    && entries_post(a.migrating_slots[0]@, b.migrating_slots[0]@, p, is_j && (h == 0 || both_moved(a, h)), e)
-    && entries_post(a.migrating_slots[1]@, b.migrating_slots[1]@, p, is_j && (h == 1 || both_moved(a, h)), e)''')
-    s=s.replace("positions_of(oc.chunks@[j].migrating_slots[h]@)","hit_peers(oc.chunks@[j], h)")
-
-    # hints before each `if both_moved {`
-    parts=s.split("                if both_moved {\n")
-    need(len(parts)==3, 'two `if both_moved {` blocks')
-    def pre(h):
-        o=1-h
-        return f'''                proof {{
-                    let s1 = old_cluster.chunks@[it.index@].migrating_slots[{h}]@;
-                    let s2 = old_cluster.chunks@[it.index@].migrating_slots[{o}]@;
-                    assert(s1.subrange(0, s1.len() as int) =~= s1);
-                    assert(s1 + s2.subrange(0, 0) =~= s1);
-                }}
-'''
-    s=parts[0]+pre(0)+"                if both_moved {\n"+parts[1]+pre(1)+"                if both_moved {\n"+parts[2]
-    # hints before the two plain breaks that follow the `if both_moved {...}` blocks
-    def repl3(m):
-        nonlocal cnt3
-        h=cnt3; o=1-h; cnt3+=1
-        return m.group(1)+f'''                proof {{
-                    let s1 = old_cluster.chunks@[it.index@].migrating_slots[{h}]@;
-                    let s2 = old_cluster.chunks@[it.index@].migrating_slots[{o}]@;
-                    assert(s1.subrange(0, s1.len() as int) =~= s1);
-                    assert(s1 + s2.subrange(0, s2.len() as int) =~= s1 + s2);
-                }}
-'''+m.group(2)
-    s=re.sub(r'(                    \}\n                \}\n)(                proof \{\n                    let sq)', repl3, s)
-    need(cnt3==2, 'two both_moved blocks followed by hints')
-    U.log.rule('D10', fobj, '2 early `return Ok(());` inside the first for-loop -> verif_ret flag + break, returned after the loop')
-    U.log.rule('overlay', fobj, '8 loop specs by ordinal, ghost snapshots old_cluster/mid/hit_idx, proof hints anchored on source text')
-    bump = bump_global_epoch(U)
-    specs_final = s[:s.index('//@@SPECS_END@@')].replace('//@@BUMP@@', bump.text)
-    contract_final = s[s.index('//@@CONTRACT_BEGIN@@') + len('//@@CONTRACT_BEGIN@@\n'):s.index('//@@CONTRACT_END@@')]
-    fobj.text = contract_final + s[s.index('//@@CONTRACT_END@@') + len('//@@CONTRACT_END@@\n'):]
-    fobj.text = fobj.text[:fobj.text.rindex('}')]     # closing brace of the impl is added by the caller
-    return {'specs': specs_final, 'contract': contract_final, 'fn': fobj, 'bump': bump}
+UPDATE_STRUCT = "pub struct MetaStoreUpdate<'a> { pub store: &'a mut MetaStore }\n"
 
 
 def bump_global_epoch(U):
@@ -354,7 +23,27 @@ def bump_global_epoch(U):
     return b
 
 
-UPDATE_STRUCT = "pub struct MetaStoreUpdate<'a> { pub store: &'a mut MetaStore }\n"
+def contract_text():
+    """signature + requires/ensures of takeover_master as stored in the overlay (used verbatim by callers' units)"""
+    for op in _overlay.load('takeover_master')['ops']:
+        if op['op'] == 'header':
+            return op['text'] + '\n'
+    raise Undecided('takeover_master overlay has no header')
+
+
+def function(U):
+    S = U.src('src/broker/update.rs')
+    f = S.fn('takeover_master')
+    f.r1_logging()
+    vlib.d10_return_in_for(f, 0, 'Result<(), MetaStoreError>')
+    f.apply_overlay('takeover_master')
+    return f
+
+
+def parts(U):
+    bump = bump_global_epoch(U)
+    specs = open(vlib.VERIF + '/verus/takeover_spec.rs').read().replace('//@@BUMP@@', bump.text)
+    return {'specs': specs, 'contract': contract_text(), 'fn': function(U), 'bump': bump}
 
 
 def build(U):
